@@ -1,4 +1,4 @@
-//@unit U19 props=C04,C05,C10,C19 rlimit=100 NetcodeServer::{handle_connection_request, find_or_add_connect_token_entry, process_packet_internal} (renetcode/src/server.rs)
+//@unit U19 props=C04,C05,C10,C17,C19 rlimit=100 NetcodeServer::{new, handle_connection_request, find_or_add_connect_token_entry, process_packet_internal} (renetcode/src/server.rs)
 #![feature(allocator_api)]
 #![allow(unused_imports, dead_code, unused_variables, unused_mut)]
 use vstd::prelude::*;
@@ -13,6 +13,7 @@ global size_of usize == 8;
 //@include shims/std_maps.rs
 
 //@include shims/socket_addr.rs
+//@include shims/into_boxed_slice.rs
 
 broadcast use {socket_addr_axioms::axiom_socket_addr_key_model};
 
@@ -48,19 +49,34 @@ impl From<TokenGenerationError> for NetcodeError {
 //@extract enum renetcode/src/packet.rs Packet
 //@extract struct renetcode/src/packet.rs ChallengeToken
 //@extract struct renetcode/src/token.rs PrivateConnectToken
+#[derive(Debug, Clone)]
 //@extract struct renetcode/src/replay_protection.rs ReplayProtection
 #[derive(Debug, Clone, Copy, PartialEq, Eq)]
 //@extract enum renetcode/src/server.rs ConnectionState
+#[derive(Debug, Clone)]
 //@extract struct renetcode/src/server.rs Connection
 #[derive(Debug, Copy, Clone)]
 //@extract struct renetcode/src/server.rs ConnectTokenEntry
 //@extract enum renetcode/src/server.rs ServerResult
 //@extract struct renetcode/src/server.rs NetcodeServer
+//@extract enum renetcode/src/server.rs ServerAuthentication
+//@extract struct renetcode/src/server.rs ServerConfig
 
 pub uninterp spec fn challenge_authentic(token_data: [u8; 300], token_sequence: u64, key: [u8; 32], client_id: u64, user_data: [u8; 256]) -> bool;
 /// some challenge this key sealed names exactly this client id and user data
 pub open spec fn issued_challenge(key: [u8; 32], client_id: u64, user_data: [u8; 256]) -> bool {
     exists|td: [u8; 300], ts: u64| #[trigger] challenge_authentic(td, ts, key, client_id, user_data)
+}
+/// the datagram is the AEAD sealing of some packet under `key` with nonce `sequence` (what Packet::encode produces)
+pub uninterp spec fn sealed_with(datagram: Seq<u8>, key: [u8; 32], sequence: u64) -> bool;
+
+/// C17: a handshake reply (challenge, denied) carries a nonce of the upper half of the sequence space; session packets count from 0,
+/// so the two never share a nonce under the server-to-client key they both use
+pub open spec fn handshake_nonce(datagram: Seq<u8>) -> bool {
+    exists|k: [u8; 32], q: u64| #[trigger] sealed_with(datagram, k, q) && q >= 0x8000_0000_0000_0000
+}
+pub open spec fn session_nonce(datagram: Seq<u8>, q: u64) -> bool {
+    q < 0x8000_0000_0000_0000 && exists|k: [u8; 32]| #[trigger] sealed_with(datagram, k, q)
 }
 pub uninterp spec fn sealed_under(datagram: Seq<u8>, key: [u8; 32]) -> bool;
 pub uninterp spec fn token_authentic(data: [u8; 1024], protocol_id: u64, expire_timestamp: u64, xnonce: [u8; 24], key: [u8; 32]) -> bool;
@@ -123,6 +139,8 @@ impl NetcodeServer {
     pub open spec fn server_wf(&self) -> bool {
         &&& mac_unique(self.connect_token_entries@)
         &&& table_unique(self.clients@)
+        // C17: handshake replies are numbered in the upper half of the sequence space
+        &&& self.global_sequence >= 0x8000_0000_0000_0000
         // a half-open session is filed under the address it came from
         &&& forall|a: SocketAddr| #[trigger] self.pending_clients@.contains_key(a) ==> self.pending_clients@[a].addr == a
     }
@@ -131,7 +149,7 @@ impl NetcodeServer {
     pub open spec fn counters_ok(&self) -> bool {
         &&& self.current_time.nanos / 1_000_000_000 <= u64::MAX
         &&& self.global_sequence < u64::MAX && self.challenge_sequence < u64::MAX
-        &&& forall|a: SocketAddr| #[trigger] self.pending_clients@.contains_key(a) ==> self.pending_clients@[a].sequence < u64::MAX
+        &&& forall|a: SocketAddr| #[trigger] self.pending_clients@.contains_key(a) ==> self.pending_clients@[a].sequence < 0x8000_0000_0000_0000
     }
 }
 
@@ -202,6 +220,8 @@ impl<'a> Packet<'a> {
             final(buffer)@.len() == old(buffer)@.len(),
             r matches Ok(len) ==> len <= old(buffer)@.len()
                 && (*self is ConnectionDenied ==> len <= 25) && (*self is Challenge ==> len <= 333) && (*self is KeepAlive ==> len <= 33),
+            // what it writes is sealed under the given key with the given sequence number as nonce (U11: sealed exactly once, with that pair)
+            r matches Ok(len) ==> (crypto_info matches Some(ci) ==> sealed_with(final(buffer)@.subrange(0, len as int), *ci.1, ci.0)),
 //@endfn
 //@stub renetcode/src/packet.rs Packet::generate_challenge
 //@ret r
@@ -254,7 +274,25 @@ pub fn first_free_slot_unverified(clients: &Box<[Option<Connection>]>) -> (r: Op
                 && final(clients)@ == old(clients)@.update(sc.0 as int, Some(*final(sc.1))),
 //@endfn
 
+// ASSUMED: OS randomness (any 32 bytes)
+//@stub renetcode/src/crypto.rs ::generate_random_bytes
+//@ret r
+//@endfn
+
 impl NetcodeServer {
+//@fn renetcode/src/server.rs NetcodeServer::new
+//@ret r
+//@spec
+        requires config.max_clients <= 1024,       // documented panic otherwise
+        ensures
+            r.server_wf(),                                                                 // @C10,C17 new.server_invariant_established
+            r.global_sequence == 0x8000_0000_0000_0000 && r.challenge_sequence == 0,       // @C17 new.handshake_counter_starts_in_the_upper_half
+            r.clients@.len() == config.max_clients && forall|i: int| 0 <= i < r.clients@.len() ==> (#[trigger] r.clients@[i]) is None,   // @C10 new.no_client_connected
+            r.pending_clients@ == Map::<SocketAddr, Connection>::empty(),                 // @C10 new.no_half_open_session
+            r.max_clients == config.max_clients && r.protocol_id == config.protocol_id && r.current_time == config.current_time,   // @C10 new.configuration_kept
+//@entry
+        proof { assert(1u64 << 63 == 0x8000_0000_0000_0000u64) by (bit_vector); }
+//@endfn
 //@fn renetcode/src/server.rs NetcodeServer::find_or_add_connect_token_entry
 //@ret r
 //@attr #[verifier::loop_isolation(false)]
